@@ -216,7 +216,9 @@ def judge_message(ctx: Ctx, mods: sut_py.PyModules, tr: py_trace.PyTrace, m: Mes
                 res.violation("py-trace:layout", f"{m.name}: {lp}", w)
             res.count("trace_encodes_checked")
         # ---- decode own output and the reference bytes ---------------------
+        rt_ok = False
         if judge.get("roundtrip"):
+            rt_ok = True
             want = ref.normalise(m, v)
             for src_name, src in (("own", data), ("ref", exp)):
                 if src_name == "ref" and exp == data:
@@ -232,6 +234,7 @@ def judge_message(ctx: Ctx, mods: sut_py.PyModules, tr: py_trace.PyTrace, m: Mes
                     got = mods.read(m, fresh)
                 except Exception as e:
                     tb = traceback.format_exc()
+                    rt_ok = False
                     key = classify_roundtrip_failure(mods, m, fresh, want, e, tb)
                     res.violation(key, f"{m.name}: decode({src_name} bytes) raised {type(e).__name__}: {e}",
                                   {**w, "bytes": src.hex(), "traceback": tb[-1500:]})
@@ -239,6 +242,7 @@ def judge_message(ctx: Ctx, mods: sut_py.PyModules, tr: py_trace.PyTrace, m: Mes
                 res.count("roundtrips_compared")
                 lp = py_trace.check_layout(dcalls, items)
                 if got != want or lp or dproblems:
+                    rt_ok = False
                     key = "py-roundtrip"
                     if lp:
                         key = "py-decode-layout"
@@ -257,9 +261,60 @@ def judge_message(ctx: Ctx, mods: sut_py.PyModules, tr: py_trace.PyTrace, m: Mes
                 if again != data:
                     res.violation("py-reencode", f"{m.name}: re-encoding the decoded message gives different bytes",
                                   {**w, "first": data.hex(), "second": again.hex()})
+        # ---- history independence -------------------------------------------
+        # encode/decode are functions of (schema, value/bytes): what the same process decoded or encoded before - a peer's buffer
+        # with other prefixes, zeros, garbage - must leave no trace in later calls (processors, accessors and indexers are per call)
+        if (judge.get("layout") or judge.get("roundtrip")) and (vi % 3 == 1 or (vi < 2 and any(it.kind.endswith("prefix") for it in items))):
+            for hname, hbuf in foreign_buffers(items, exp, rng):
+                res.count("history_foreign_decodes")
+                res.observe("history_kinds", hname)
+                try:
+                    mods.new(m).decode(bytearray(hbuf))
+                except Exception:
+                    res.count("history_foreign_decodes_raised_not_judged")
+            res.count("history_checks")
+            if judge.get("layout") and data == exp:
+                try:
+                    data2 = bytes(mods.build(m, v).encode())
+                except Exception as e:
+                    res.violation("py-encode-depends-on-history", f"{m.name}: encoding the same value raised {type(e).__name__}: {e} after the process decoded "
+                                  f"other buffers", {**w, "traceback": traceback.format_exc()[-1500:]})
+                    continue
+                if data2 != exp:
+                    res.violation("py-encode-depends-on-history", f"{m.name}: the same value encodes differently after the process decoded other buffers "
+                                  f"(a peer's prefixes, zeros, ones)", {**w, "before": data.hex(), "after": data2.hex()})
+            if judge.get("roundtrip") and rt_ok:
+                # only when the plain round trip of this value held: its failures are classified above (known finding py-enum-default-or)
+                try:
+                    fresh2 = mods.new(m)
+                    fresh2.decode(bytearray(exp))
+                    got2 = mods.read(m, fresh2)
+                except Exception as e:
+                    res.violation("py-decode-depends-on-history", f"{m.name}: decoding the specified bytes raised {type(e).__name__}: {e} after the process decoded "
+                                  f"other buffers", {**w, "bytes": exp.hex(), "traceback": traceback.format_exc()[-1500:]})
+                    continue
+                if got2 != ref.normalise(m, v):
+                    res.violation("py-decode-depends-on-history", f"{m.name}: the specified bytes decode differently after the process decoded other buffers",
+                                  {**w, "bytes": exp.hex(), "decoded": got2, "expected": ref.normalise(m, v)})
         # ---- JSON ----------------------------------------------------------
         if judge.get("json"):
             judge_json(ctx, mods, m, obj, v, w)
+
+
+def foreign_buffers(items, exp: bytes, rng) -> List[Any]:
+    """Buffers a peer with another schema version (or a broken link) could send: other size/capacity prefixes, zeros, ones."""
+    out = [("zeros", bytes(len(exp))), ("ones", b"\xff" * len(exp))]
+    pref = [it for it in items if it.kind.endswith("prefix")]
+    if pref:
+        for mode in ("prefix+8", "prefix-small", "prefix-random"):
+            bits = [(exp[k // 8] >> (k % 8)) & 1 for k in range(len(exp) * 8)]
+            for it in pref:
+                cur = sum(bits[it.offset + j] << j for j in range(16))
+                new = {"prefix+8": (cur + 8) & 0xFFFF, "prefix-small": max(0, cur // 2), "prefix-random": rng.randrange(0, 1 << 12)}[mode]
+                for j in range(16):
+                    bits[it.offset + j] = (new >> j) & 1
+            out.append((mode, bytes(sum(bits[b * 8 + j] << j for j in range(8)) for b in range(len(exp)))))
+    return out
 
 
 def judge_json(ctx: Ctx, mods: sut_py.PyModules, m: Message, obj: Any, v: Any, w: Dict[str, Any]) -> None:
